@@ -146,6 +146,31 @@ theorem keysNodup_specOf (es : List Entry) : (specOf es).KeysNodup := by
   | nil => intro m h; exact h
   | cons e es ih => intro m h; exact ih _ (keysNodup_specStep m e h)
 
+/-- provenance: every record of the map is the key and payload of some insert/update of the stream -/
+theorem mem_foldl_specStep (es : List Entry) (m : Index) (P : Bytes → Bytes → Prop)
+    (hm : ∀ p ∈ m, P p.1 p.2) (hes : ∀ e ∈ es, P e.key e.data) :
+    ∀ p ∈ es.foldl specStep m, P p.1 p.2 := by
+  induction es generalizing m with
+  | nil => exact hm
+  | cons e es ih =>
+    simp only [List.foldl_cons]
+    apply ih
+    · intro p hp
+      unfold specStep at hp
+      split at hp
+      · exact hm p (List.mem_filter.mp hp).1
+      · split at hp
+        · simp only [Index.put, List.mem_cons] at hp
+          rcases hp with rfl | hp
+          · exact hes e (by simp)
+          · exact hm p (List.mem_filter.mp hp).1
+        · exact hm p hp
+    · intro x hx; exact hes x (by simp [hx])
+
+theorem mem_specOf (es : List Entry) (P : Bytes → Bytes → Prop) (hes : ∀ e ∈ es, P e.key e.data) :
+    ∀ p ∈ specOf es, P p.1 p.2 :=
+  mem_foldl_specStep es [] P (by simp) hes
+
 /-- with the delete case in place `LoadIndex`'s replay is the Spec fold -/
 theorem replay_eq_specOf (cfg : Cfg) (h : cfg.deleteRemoves = true) (es : List Entry) :
     replay cfg es = specOf es := by
